@@ -170,7 +170,12 @@ TEMPLATES = [
     ('naphtho[2,3-b]furan', 'o1ccc2cc3ccccc3cc12', 'O1C=CC2=CC3=CC=CC=C3C=C12'),
     ('benzo[1,2-b:4,5-b]dithiophene', 's1ccc2cc3sccc3cc12', 'S1C=CC2=CC3=C(C=CS3)C=C12'),
     ('azuleno-thiophene', None, 'S1C=CC2=C1C=C1C=CC=CC=C21'),
-    ('cyclopenta[b]pyridine-anion', '[cH-]1ccc2ncccc12', '[CH-]1C=CC2=NC=CC=C12'),
+    # charged ring carbon with an explicit hydrogen next to an aromatic N written without hydrogen (one violation family: 4th field)
+    ('cyclopenta[b]pyridine-anion', '[cH-]1c{0}c{1}c2nc{2}c{3}c{4}c12', '[CH-]1C{0}=C{1}C2=NC{2}=C{3}C{4}=C12', 'charged-ring-carbon+aza'),
+    ('cyclopenta[c]pyridine-anion', '[cH-]1ccc2cnccc12', '[CH-]1C=CC2=CN=CC=C12', 'charged-ring-carbon+aza'),
+    ('2H-pyrrol-2-ide', '[cH-]1c{0}c{1}c{2}n1', '[CH-]1C{0}=C{1}C{2}=N1', 'charged-ring-carbon+aza'),
+    ('3H-pyrrol-3-ide', '[cH-]1c{0}c{1}nc1{2}', '[CH-]1C{0}=C{1}N=C1{2}', 'charged-ring-carbon+aza'),
+    ('aza-benzotropylium', '[cH+]1cccc2ncccc2c1', '[CH+]1C=CC=C2N=CC=CC2=C1', 'charged-ring-carbon+aza'),
     ('benzotropylium', '[cH+]1cccc2ccccc2c1', '[CH+]1C=CC=C2C=CC=CC2=C1'),
     # --- unsaturated four-membered rings (enumeration clause is a recorded gap there)
     ('biphenylene', 'c1ccc2c(c1)c1ccccc21', 'C1=CC=C2C(=C1)C1=CC=CC=C21'),
@@ -211,8 +216,9 @@ def patterns(k, r, n_random, pairs):
 
 
 def generate(r, n_random=3, pairs=False):
-    """yield (name, pattern text, aromatic spelling or None, Kekule spelling or None)"""
-    for name, aro, kek in TEMPLATES:
+    """yield (name, pattern text, aromatic spelling or None, Kekule spelling or None, violation family)"""
+    for name, aro, kek, *fam in TEMPLATES:
+        fam = fam[0] if fam else name
         k = n_slots(aro or kek)
         if aro and kek and n_slots(aro) != n_slots(kek):
             raise ValueError(f'template {name}: slot counts differ')
@@ -222,4 +228,4 @@ def generate(r, n_random=3, pairs=False):
             if key in seen:
                 continue
             seen.add(key)
-            yield name, ','.join(f'{i}:{s}' for i, s in key), fill(aro, p) if aro else None, fill(kek, p) if kek else None
+            yield name, ','.join(f'{i}:{s}' for i, s in key), fill(aro, p) if aro else None, fill(kek, p) if kek else None, fam
